@@ -18,15 +18,15 @@
 (*   failures   - an error return changes nothing, nothing panics.              *)
 EXTENDS H5Model, TraceCommon, AttrJudge
 
-VARIABLES l, cfg, bad, skip, hs, stats
+VARIABLES l, cfg, bad, skip, hs, stats, aliases, sha
 
-tvars == <<l, objs, nid, created, fclosed, cfg, bad, skip, hs, stats>>
+tvars == <<l, objs, nid, created, fclosed, cfg, bad, skip, hs, stats, aliases, sha>>
 
 InitStats == [cases |-> 0, ops |-> 0, errs |-> 0, creates |-> 0, writes |-> 0, resizes |-> 0, links |-> 0,
               attrs |-> 0, observes |-> 0, datasets |-> 0, sessions |-> 0]
 
 Init == /\ l = 1 /\ objs = [i \in {Root} |-> Obj("group")] /\ nid = 1 /\ created = {} /\ fclosed = FALSE
-        /\ cfg = EmptyFn /\ bad = 0 /\ skip = FALSE /\ hs = EmptyFn /\ stats = InitStats
+        /\ cfg = EmptyFn /\ bad = 0 /\ skip = FALSE /\ hs = EmptyFn /\ stats = InitStats /\ aliases = {} /\ sha = [v |-> "", dirty |-> FALSE]
 
 
 Collides(n) == /\ n \in DOMAIN hs
@@ -126,11 +126,20 @@ MaxWritten(m, k) == IF m.wdims = <<>> THEN 0 ELSE m.wdims[k]
 Bump(f) == stats' = [stats EXCEPT ![f] = @ + 1, !.ops = @ + 1]
 BumpErr == stats' = [stats EXCEPT !.errs = @ + 1, !.ops = @ + 1]
 
+\* C16 "later calls behave normally": in cases marked sure (no capacity limit in play) a call that
+\* is valid by the model must not be refused
+\* (calls under a path that passes through a hard link are excluded: the writer addresses groups by
+\* the path they were created with, which is a limitation, not a failure-atomicity defect)
+SureOf(e) == Has(e, "sure") /\ e.sure /\ ~fclosed
+             /\ ~\E k \in 1..Len(e.pc) : SubSeq(e.pc, 1, k) \in aliases
+Refused(e, why) == Reject(e, "valid-call-rejected", why) /\ UNCHANGED stats
+
 Create(e, o) ==          \* mkgroup / mkds / slink / xlink
   IF e.res = "ok"
   THEN IF CreateDefect(e.pc) # ""
        THEN Reject(e, "invalid-create-accepted", CreateDefect(e.pc)) /\ UNCHANGED stats
        ELSE AddObj(e.pc, o) /\ Bump("creates") /\ UNCHANGED <<fclosed, cfg, bad, skip>>
+  ELSE IF SureOf(e) /\ CreateDefect(e.pc) = "" THEN Refused(e, e.msg)
   ELSE Keep /\ BumpErr
 
 Step(e) ==
@@ -148,6 +157,7 @@ Step(e) ==
               ELSE IF Resolve(e.tc) = -1
               THEN Reject(e, "invalid-create-accepted", "hardlink-target-missing") /\ UNCHANGED stats
               ELSE AddLink(e.pc, Resolve(e.tc)) /\ Bump("links") /\ UNCHANGED <<fclosed, cfg, bad, skip>>
+         ELSE IF SureOf(e) /\ CreateDefect(e.pc) = "" /\ Resolve(e.tc) # -1 THEN Refused(e, e.msg)
          ELSE Keep /\ BumpErr
     [] e.op = "write" ->
          LET id == Resolve(e.pc) IN
@@ -155,6 +165,8 @@ Step(e) ==
          THEN /\ objs' = [objs EXCEPT ![id].data = e.exp, ![id].written = TRUE,
                                        ![id].lo = objs[id].dims, ![id].wdims = objs[id].dims, ![id].regrown = FALSE]
               /\ Bump("writes") /\ UNCHANGED <<nid, created, fclosed, cfg, bad, skip>>
+         ELSE IF SureOf(e) /\ e.res = "err" /\ id # -1 /\ objs[id].k = "dataset" /\ e.data \notin {"short", "long", "wrongtype"}
+         THEN Refused(e, e.msg)
          ELSE Keep /\ BumpErr
     [] e.op = "resize" ->
          LET id == Resolve(e.pc) IN
@@ -184,12 +196,14 @@ Step(e) ==
          IF e.res = "ok" /\ id # -1
          THEN /\ objs' = [objs EXCEPT ![id].attrs = FnPut(@, e.n, e.val)]
               /\ Bump("attrs") /\ UNCHANGED <<nid, created, fclosed, cfg, bad, skip>>
+         ELSE IF SureOf(e) /\ e.res = "err" /\ id # -1 /\ e.val.cls # -1 THEN Refused(e, e.msg)
          ELSE Keep /\ BumpErr
     [] e.op = "delattr" ->
          LET id == Resolve(e.pc) IN
          IF e.res = "ok" /\ id # -1
          THEN /\ objs' = [objs EXCEPT ![id].attrs = FnDel(@, e.n)]
               /\ Bump("attrs") /\ UNCHANGED <<nid, created, fclosed, cfg, bad, skip>>
+         ELSE IF SureOf(e) /\ e.res = "err" /\ id # -1 /\ e.n \in DOMAIN objs[id].attrs THEN Refused(e, e.msg)
          ELSE Keep /\ BumpErr
     [] e.op = "fclose" ->
          IF e.res = "ok" THEN /\ fclosed' = TRUE /\ UNCHANGED <<objs, nid, created, cfg, bad, skip, stats>>
@@ -198,7 +212,11 @@ Step(e) ==
          IF e.res = "ok" THEN /\ fclosed' = FALSE /\ stats' = [stats EXCEPT !.sessions = @ + 1]
                               /\ UNCHANGED <<objs, nid, created, cfg, bad, skip>>
          ELSE Reject(e, "reopen-for-write-failed", e.msg) /\ UNCHANGED stats
-    [] e.op \in {"opends", "dsclose", "sha"} -> Keep /\ UNCHANGED stats
+    [] e.op \in {"opends", "dsclose"} -> Keep /\ UNCHANGED stats
+    [] e.op = "sha" ->    \* C10: a session that made no modification leaves the file byte-identical
+         IF e.res = "ok" /\ sha.v # "" /\ ~sha.dirty /\ e.sha # sha.v
+         THEN Reject(e, "noop-session-changed-bytes", "") /\ UNCHANGED stats
+         ELSE Keep /\ UNCHANGED stats
     [] e.op = "setup" -> Reject(e, "setup-failed", e.msg) /\ UNCHANGED stats
     [] e.op = "observe" ->
          LET items == ObserveItems(e) IN
@@ -219,10 +237,15 @@ Consume ==
   /\ LET e == Trace[l] IN
        IF e.op = "reset"
        THEN /\ objs' = [i \in {Root} |-> Obj("group")] /\ nid' = 1 /\ created' = {} /\ fclosed' = FALSE
-            /\ cfg' = e.cfg /\ skip' = FALSE /\ bad' = bad /\ hs' = EmptyFn
+            /\ cfg' = e.cfg /\ skip' = FALSE /\ bad' = bad /\ hs' = EmptyFn /\ aliases' = {} /\ sha' = [v |-> "", dirty |-> FALSE]
             /\ stats' = [stats EXCEPT !.cases = @ + 1]
-       ELSE IF skip THEN UNCHANGED <<objs, nid, created, fclosed, cfg, bad, skip, hs, stats>>
+       ELSE IF skip THEN UNCHANGED <<objs, nid, created, fclosed, cfg, bad, skip, hs, stats, aliases, sha>>
        ELSE /\ Step(e)
+            /\ sha' = IF e.op = "sha" /\ e.res = "ok" THEN [v |-> e.sha, dirty |-> FALSE]
+                      ELSE IF e.op \in {"mkgroup", "mkds", "slink", "xlink", "hlink", "write", "resize", "attr", "delattr"}
+                              /\ Has(e, "res") /\ e.res = "ok" THEN [sha EXCEPT !.dirty = TRUE]
+                      ELSE sha
+            /\ aliases' = IF e.op \in {"hlink", "slink", "xlink"} /\ Has(e, "res") /\ e.res = "ok" THEN aliases \cup {e.pc} ELSE aliases
             /\ hs' = IF e.op \in {"attr", "delattr"} /\ Has(e, "h") THEN FnPut(hs, e.n, e.h) ELSE hs
 
 Spec == Init /\ [][Consume]_tvars
